@@ -65,18 +65,21 @@ def generic_orthogonal(d: int, k: int = 0) -> np.ndarray:
 
 
 def generic_density(d: int, k: int = 0, rank: int | None = None) -> np.ndarray:
+    """Generic basis (Haar-like unitary) x seed-jittered ramp spectrum: eigenvalue gaps are guaranteed for every d."""
     rank = rank or d
+    r = rng(f"density{d}r{rank}", k)
+    z = r.normal(size=(d, d)) + 1j * r.normal(size=(d, d))
+    q, rr = np.linalg.qr(z)
+    u = q * (np.diag(rr) / np.abs(np.diag(rr)))
+    w = np.arange(rank, 0, -1, dtype=float) + r.uniform(-0.3, 0.3, size=rank)
+    w = w / w.sum()
+    full = np.zeros(d)
+    full[:rank] = w
+    return herm_(u @ np.diag(full) @ u.conj().T)
 
-    def draw(r):
-        a = r.normal(size=(d, rank)) + 1j * r.normal(size=(d, rank))
-        rho = a @ a.conj().T
-        rho = rho / np.trace(rho).real
-        return (rho + rho.conj().T) / 2
 
-    def good(rho):
-        w = np.linalg.eigvalsh(rho)[::-1][:rank]
-        return w.min() > 0.05 and (np.min(np.diff(np.sort(w))) > 0.03 if rank > 1 else True)
-    return _conditioned(draw, good, f"density{d}r{rank}", k)
+def herm_(m):
+    return (m + m.conj().T) / 2
 
 
 def generic_prior(n: int, k: int = 0) -> np.ndarray:
